@@ -1,8 +1,727 @@
-//! C17 — not built yet (stub).
+//! C17 — dates. This module only RECORDS: formatting through `{{ ts | date: fmt }}`, print/parse round
+//! trips of `DateTime`, and comparisons of date-times given in different offsets become events in the
+//! worker's event log; the judging (independent calendar arithmetic + the documented strftime
+//! semantics) is in `/verif/checkers/c17_dates.py`.
+//!
+//! Accepted input syntaxes of `DateTime::from_str` (crates/core/src/model/scalar/datetime.rs), all
+//! exercised below; the offset ` +HHMM` / ` -HHMM` is optional everywhere (default +0000):
+//!   0 default       `YYYY-MM-DD HH:MM:SS[.fraction] +HHMM`
+//!   1 default-nooff `YYYY-MM-DD HH:MM:SS[.fraction]`
+//!   2 day_month     `DD Month YYYY HH:MM:SS +HHMM`
+//!   3 day_mon       `DD Mon YYYY HH:MM:SS +HHMM`
+//!   4 mdy           `MM/DD/YYYY HH:MM:SS +HHMM`
+//!   5 dow_mon       `Dow Mon D HH:MM:SS YYYY +HHMM`
+//!   6 unix          decimal seconds since the epoch
+//!   ("now" / "today" are accepted too but not deterministic, hence not recorded)
+//!
+//! Events
+//!   {"ev":"fmt","ts":{y,mo,d,h,mi,s,ns,off_s},"via":"value|string","x":"<input text>","fmt":"…",
+//!    "res":{"k":"ok|err|panic|unparsed|other","v":"…"}}
+//!   {"ev":"rt","ts":{…},"rt":{"x","syntax","printed","reparsed","same_instant","same_offset",
+//!    "ns0","ns1","off0","off1"}}            (printed = null when from_str rejected x)
+//!   {"ev":"cmp","cmp":{"a","b","via":"Value|template","eq","lt","gt","le","ge","ne"[,"res"]}}
+use crate::cfg::{parser, Config};
 use crate::ctx::Ctx;
+use crate::exec::{render, Out};
+use crate::mon::guard;
+use crate::rng::{hash_combine, hash_str, Rng};
+use liquid::model::{DateTime, Value};
+use liquid::{Object, Template};
+use serde_json::{json, Value as Json};
 
-pub fn run(_ctx: &mut Ctx) {}
+#[derive(Clone, Copy, Debug, PartialEq, Eq)]
+pub struct Ts {
+    y: i64,
+    mo: i64,
+    d: i64,
+    h: i64,
+    mi: i64,
+    s: i64,
+    ns: i64,
+    off: i64,
+}
 
-pub fn replay(_j: &serde_json::Value) -> bool {
+const MONTHS: [&str; 12] = [
+    "January", "February", "March", "April", "May", "June", "July", "August", "September", "October", "November",
+    "December",
+];
+const DOW: [&str; 7] = ["Sun", "Mon", "Tue", "Wed", "Thu", "Fri", "Sat"];
+
+// Howard Hinnant's civil-date algorithms (input generation only: weekday names for syntax 5 and
+// shifting an instant into another offset for the comparison pairs)
+fn days_from_civil(y: i64, m: i64, d: i64) -> i64 {
+    let y = if m <= 2 { y - 1 } else { y };
+    let era = y.div_euclid(400);
+    let yoe = y - era * 400;
+    let mp = (m + 9) % 12;
+    let doy = (153 * mp + 2) / 5 + d - 1;
+    let doe = yoe * 365 + yoe / 4 - yoe / 100 + doy;
+    era * 146097 + doe - 719468
+}
+fn civil_from_days(z: i64) -> (i64, i64, i64) {
+    let z = z + 719468;
+    let era = z.div_euclid(146097);
+    let doe = z - era * 146097;
+    let yoe = (doe - doe / 1460 + doe / 36524 - doe / 146096) / 365;
+    let y = yoe + era * 400;
+    let doy = doe - (365 * yoe + yoe / 4 - yoe / 100);
+    let mp = (5 * doy + 2) / 153;
+    let d = doy - (153 * mp + 2) / 5 + 1;
+    let m = if mp < 10 { mp + 3 } else { mp - 9 };
+    (if m <= 2 { y + 1 } else { y }, m, d)
+}
+fn is_leap(y: i64) -> bool {
+    (y % 4 == 0 && y % 100 != 0) || y % 400 == 0
+}
+fn days_in_month(y: i64, m: i64) -> i64 {
+    match m {
+        1 | 3 | 5 | 7 | 8 | 10 | 12 => 31,
+        4 | 6 | 9 | 11 => 30,
+        _ => {
+            if is_leap(y) {
+                29
+            } else {
+                28
+            }
+        }
+    }
+}
+
+impl Ts {
+    fn to_json(&self) -> Json {
+        json!({"y": self.y, "mo": self.mo, "d": self.d, "h": self.h, "mi": self.mi, "s": self.s, "ns": self.ns, "off_s": self.off})
+    }
+    fn from_json(j: &Json) -> Option<Ts> {
+        Some(Ts {
+            y: j.get("y")?.as_i64()?,
+            mo: j.get("mo")?.as_i64()?,
+            d: j.get("d")?.as_i64()?,
+            h: j.get("h")?.as_i64()?,
+            mi: j.get("mi")?.as_i64()?,
+            s: j.get("s")?.as_i64()?,
+            ns: j.get("ns")?.as_i64()?,
+            off: j.get("off_s")?.as_i64()?,
+        })
+    }
+    /// seconds since the epoch of the instant
+    fn unix(&self) -> i64 {
+        days_from_civil(self.y, self.mo, self.d) * 86400 + self.h * 3600 + self.mi * 60 + self.s - self.off
+    }
+    /// the same instant (+ delta) seen in another offset; None outside years 1..=9999
+    fn shifted(&self, delta_ns: i64, off: i64) -> Option<Ts> {
+        let total = self.unix() as i128 * 1_000_000_000 + self.ns as i128 + delta_ns as i128;
+        let secs = total.div_euclid(1_000_000_000) as i64;
+        let ns = total.rem_euclid(1_000_000_000) as i64;
+        let local = secs + off;
+        let days = local.div_euclid(86400);
+        let sod = local.rem_euclid(86400);
+        let (y, mo, d) = civil_from_days(days);
+        if !(1..=9999).contains(&y) {
+            return None;
+        }
+        Some(Ts { y, mo, d, h: sod / 3600, mi: sod / 60 % 60, s: sod % 60, ns, off })
+    }
+    fn off_text(&self) -> String {
+        let a = self.off.abs();
+        format!("{}{:02}{:02}", if self.off < 0 { '-' } else { '+' }, a / 3600, a / 60 % 60)
+    }
+    /// text in one of the accepted syntaxes (see module doc); `frac_digits` only for syntax 0/1
+    fn text(&self, syntax: u8, trim_fraction: bool) -> String {
+        let frac = if self.ns == 0 {
+            String::new()
+        } else {
+            let f = format!("{:09}", self.ns);
+            if trim_fraction {
+                format!(".{}", f.trim_end_matches('0'))
+            } else {
+                format!(".{f}")
+            }
+        };
+        let hms = format!("{:02}:{:02}:{:02}", self.h, self.mi, self.s);
+        match syntax {
+            0 => format!("{:04}-{:02}-{:02} {hms}{frac} {}", self.y, self.mo, self.d, self.off_text()),
+            1 => format!("{:04}-{:02}-{:02} {hms}{frac}", self.y, self.mo, self.d),
+            2 => format!("{:02} {} {:04} {hms} {}", self.d, MONTHS[self.mo as usize - 1], self.y, self.off_text()),
+            3 => format!("{:02} {} {:04} {hms} {}", self.d, &MONTHS[self.mo as usize - 1][..3], self.y, self.off_text()),
+            4 => format!("{:02}/{:02}/{:04} {hms} {}", self.mo, self.d, self.y, self.off_text()),
+            5 => {
+                let wd = (days_from_civil(self.y, self.mo, self.d) + 4).rem_euclid(7);
+                format!(
+                    "{} {} {} {hms} {:04} {}",
+                    DOW[wd as usize],
+                    &MONTHS[self.mo as usize - 1][..3],
+                    self.d,
+                    self.y,
+                    self.off_text()
+                )
+            }
+            _ => self.unix().to_string(),
+        }
+    }
+    /// the timestamp a syntax can express (no fraction outside 0/1, no offset in 1, UTC in 6)
+    fn for_syntax(&self, syntax: u8) -> Ts {
+        let mut t = *self;
+        match syntax {
+            0 => {}
+            1 => t.off = 0,
+            6 => {
+                t.ns = 0;
+                t = t.shifted(0, 0).unwrap_or(Ts { off: 0, ns: 0, ..*self });
+            }
+            _ => t.ns = 0,
+        }
+        t
+    }
+}
+
+const SYNTAX_NAMES: [&str; 7] = ["default", "default-nooff", "day_month", "day_mon", "mdy", "dow_mon", "unix"];
+
+pub const YEARS_EXTRA: [i64; 3] = [1, 1000, 9999];
+fn years() -> Vec<i64> {
+    let mut v = vec![1, 1000];
+    v.extend(1970..=2040);
+    v.push(9999);
+    v
+}
+/// first/last day of the year, leap day and its neighbours, ISO-week-year edges, mid-year
+fn edge_days(y: i64) -> Vec<(i64, i64)> {
+    let mut v: Vec<(i64, i64)> = (1..=7).map(|d| (1, d)).collect();
+    v.push((2, 28));
+    if is_leap(y) {
+        v.push((2, 29));
+    }
+    v.push((3, 1));
+    v.push((6, 30));
+    v.push((7, 1));
+    v.push((10, 9));
+    v.extend((25..=31).map(|d| (12, d)));
+    v
+}
+const NANOS: [i64; 12] = [0, 5_000_000, 1_000, 1, 5_006_007, 999_999_999, 123_456_789, 100_000_000, 10, 50_000, 0, 0];
+/// -12:00 ..= +14:00, with the :30 / :45 zones
+fn offsets() -> Vec<i64> {
+    let mut v: Vec<i64> = (-12..=14).map(|h| h * 3600).collect();
+    for (h, m) in [(-9, 30), (-3, 30), (-2, 30), (0, 30), (3, 30), (4, 30), (5, 30), (5, 45), (6, 30), (8, 45), (9, 30), (10, 30), (12, 45), (13, 45)] {
+        let s: i64 = if h < 0 { -1 } else { 1 };
+        v.push(h * 3600 + s * m * 60);
+    }
+    v.push(-30 * 60);
+    v
+}
+
+/// every directive the documentation names, without flags
+const PLAIN: &str = "%Y|%C|%y|%m|%B|%b|%h|%d|%e|%j|%H|%k|%I|%l|%P|%p|%M|%S|%L|%N|%z|%:z|%::z|%A|%a|%u|%w|%G|%g|%V|%U|%W|%s|%n|%t|%%|%c|%D|%F|%v|%x|%X|%r|%R|%T|%Z";
+const SUBSEC: &str = "%s|%L|%N|%1N|%3N|%6N|%9N|%12N|%2L|%5L|%z|%:z|%::z|%Z|%F %T";
+pub const DIRECTIVES: &str = "YCymBbhdejHkIlPpMSLNzZAauwGgVUWsnt%cDFvxXrRT+";
+const FLAGS: [&str; 6] = ["", "-", "_", "0", "^", "#"];
+const WIDTHS: [&str; 5] = ["", "1", "3", "6", "12"];
+
+/// flag combinations, modifiers, unknown directives, malformed formats
+const SPECIAL_FORMATS: &[&str] = &[
+    // several flags: `-` sticks, the last of `_`/`0` and of `^`/`#` wins
+    "%-_5y", "%_-5y", "%-5y", "%_05d", "%0_5d", "%-0d", "%0-d", "%__3m", "%00003m", "%_0e", "%0_e", "%-_e", "%^#a", "%#^a",
+    "%^#p", "%#^p", "%^#P", "%#^P", "%-^10B", "%^-10B", "%_^10A", "%^_10A", "%^10b", "%#10h", "%-10a", "%_10p", "%10P",
+    "%-3N", "%_3N", "%03N", "%^6N", "%#9L", "%-L", "%_L", "%0L", "%024N", "%24N", "%15L", "%10N", "%11N", "%2N", "%4N", "%5N",
+    "%7N", "%8N", "%1L", "%4L", "%6L", "%9L",
+    // E / O modifiers are recognised and ignored
+    "%Ec", "%EC", "%Ex", "%EX", "%Ey", "%EY", "%Od", "%Oe", "%OH", "%OI", "%Om", "%OM", "%OS", "%Ou", "%OU", "%OV", "%Ow",
+    "%OW", "%Oy", "%Ok", "%Ol", "%EB", "%Oz", "%E%", "%OQ", "%E:z", "%-Ey", "%5Od", "%_3Oe",
+    // unknown directives are echoed, with their flags and width
+    "%f", "%i", "%J", "%K", "%o", "%q", "%Q", "%E", "%O", "%!", "% ", "%.", "%/", "%,", "%@", "%$", "%&", "%*", "%(", "%=",
+    "%~", "%?", "%\"", "%'", "%\\", "%<", "%{", "%|", "%-f", "%5q", "%_0-^#^q", "%012i", "%^J", "%#K", "%é", "%€", "%😀",
+    "%日", "%ß", "%-é", "%5é", "%_12€", "%^😀", "%0日x", "a%éb%Yc", "%\u{301}", "%\u{a0}", "%:b", "%:", "%::", "%:::z", "%::x",
+    "%:é", "%-_::xX%Y", "%:%Y", "%10::z", "%10:z", "%-:z",
+    // malformed: nothing after '%', after the flags / the width / the modifier
+    "%", "%-", "%_", "%0", "%^", "%#", "%5", "%05", "%-_0^#", "%-12", "%E", "%O", "%5E", "%-O", "X%", "%Y%", "%%%", "%Y-%m-%",
+    "abc%", "é%", "%é%", "%18446744073709551616d", "%99999999999999999999Y", "%18446744073709551616",
+    // literals only
+    "", "plain text", "é日😀", "100%%", "%%%%", "%%Y", "a%nb%tc",
+    // a longer realistic mix
+    "%Y-%m-%dT%H:%M:%S.%L%:z", "%a, %d %b %Y %H:%M:%S %z", "%A, %B %-d, %Y at %-I:%M %p", "%G-W%V-%u", "%Y%j", "%s.%N",
+    "%d/%m/%y %l:%M%P", "%e %b %Y %k:%M", "week %U/%W of %Y", "%C%y == %Y", "%FT%T%z", "%x %X", "%D %r", "%v %R",
+];
+
+pub struct Tpls {
+    fmt: Template,
+    cmp: Template,
+}
+impl Tpls {
+    pub fn new() -> Tpls {
+        let p = parser(Config::Stdlib);
+        Tpls {
+            fmt: p.parse("{{ ts | date: fmt }}").expect("c17 template"),
+            cmp: p
+                .parse("{% if a == b %}E{% endif %}{% if a < b %}L{% endif %}{% if a > b %}G{% endif %}{% if a <= b %}l{% endif %}{% if a >= b %}g{% endif %}{% if a != b %}N{% endif %}")
+                .expect("c17 template"),
+        }
+    }
+}
+
+fn out_json(out: &Out) -> Json {
+    match out {
+        Out::Ok(s) => json!({"k":"ok","v": s}),
+        Out::Err(m) => json!({"k":"err","v": m}),
+        Out::Panic(p) => json!({"k":"panic","v": p.key(), "site": p.site(), "msg": p.msg}),
+        Out::BadUtf8(b) => json!({"k":"other","v": format!("non-utf8 output of {} bytes", b.len())}),
+    }
+}
+
+/// format `ts` (given as the text `x`) through the date filter, as DateTime value or as string
+pub fn fmt_event(tp: &Tpls, ts: &Ts, x: &str, via_string: bool, fmt: &str) -> Json {
+    let mut o = Object::new();
+    o.insert("fmt".into(), Value::scalar(fmt.to_string()));
+    let res = if via_string {
+        o.insert("ts".into(), Value::scalar(x.to_string()));
+        out_json(&render(&tp.fmt, &o))
+    } else {
+        match guard(|| DateTime::from_str(x)) {
+            Ok(Some(dt)) => {
+                o.insert("ts".into(), Value::scalar(dt));
+                out_json(&render(&tp.fmt, &o))
+            }
+            Ok(None) => json!({"k":"unparsed","v":""}),
+            Err(p) => json!({"k":"panic","v": p.key(), "site": p.site(), "msg": p.msg}),
+        }
+    };
+    json!({"ev":"fmt","ts": ts.to_json(),"via": if via_string {"string"} else {"value"},"x": x,"fmt": fmt,"res": res})
+}
+
+pub fn rt_event(ts: &Ts, x: &str, syntax: &str) -> Json {
+    let r = guard(|| {
+        let Some(d0) = DateTime::from_str(x) else {
+            return json!({"x": x, "syntax": syntax, "printed": null});
+        };
+        let printed = d0.to_string();
+        let d1 = DateTime::from_str(&printed);
+        let off0 = d0.offset().whole_seconds();
+        let mut j = json!({
+            "x": x, "syntax": syntax, "printed": printed,
+            "ns0": d0.unix_timestamp_nanos().to_string(), "off0": off0,
+        });
+        match d1 {
+            Some(d1) => {
+                j["reparsed"] = json!(d1.to_string());
+                j["same_instant"] = json!(Value::scalar(d0) == Value::scalar(d1) && d0 == d1);
+                j["same_offset"] = json!(off0 == d1.offset().whole_seconds());
+                j["ns1"] = json!(d1.unix_timestamp_nanos().to_string());
+                j["off1"] = json!(d1.offset().whole_seconds());
+            }
+            None => {
+                j["reparsed"] = Json::Null;
+                j["same_instant"] = json!(false);
+                j["same_offset"] = json!(false);
+            }
+        }
+        j
+    });
+    let rt = match r {
+        Ok(j) => j,
+        Err(p) => json!({"x": x, "syntax": syntax, "panic": p.key(), "site": p.site(), "msg": p.msg}),
+    };
+    json!({"ev":"rt","ts": ts.to_json(),"rt": rt})
+}
+
+pub fn cmp_event(tp: &Tpls, a: &str, b: &str, via_template: bool) -> Json {
+    let r = guard(|| {
+        let (Some(da), Some(db)) = (DateTime::from_str(a), DateTime::from_str(b)) else {
+            return json!({"a": a, "b": b, "unparsed": true});
+        };
+        let (va, vb) = (Value::scalar(da), Value::scalar(db));
+        if via_template {
+            let mut o = Object::new();
+            o.insert("a".into(), va);
+            o.insert("b".into(), vb);
+            match render(&tp.cmp, &o) {
+                Out::Ok(s) => json!({"a": a, "b": b, "via": "template",
+                    "eq": s.contains('E'), "lt": s.contains('L'), "gt": s.contains('G'),
+                    "le": s.contains('l'), "ge": s.contains('g'), "ne": s.contains('N')}),
+                other => json!({"a": a, "b": b, "via": "template", "res": out_json(&other)}),
+            }
+        } else {
+            use std::cmp::Ordering::*;
+            let c = va.partial_cmp(&vb);
+            let eq = va == vb;
+            json!({"a": a, "b": b, "via": "Value",
+                "eq": eq, "lt": c == Some(Less), "gt": c == Some(Greater),
+                "le": matches!(c, Some(Less | Equal)), "ge": matches!(c, Some(Greater | Equal)), "ne": !eq,
+                "ord": match c { Some(Less) => "lt", Some(Equal) => "eq", Some(Greater) => "gt", None => "none" }})
+        }
+    });
+    let c = match r {
+        Ok(j) => j,
+        Err(p) => json!({"a": a, "b": b, "via": if via_template {"template"} else {"Value"},
+            "res": {"k":"panic","v": p.key(), "site": p.site(), "msg": p.msg}}),
+    };
+    json!({"ev":"cmp","cmp": c})
+}
+
+struct Run<'a> {
+    ctx: &'a mut Ctx,
+    tp: Tpls,
+}
+
+impl Run<'_> {
+    fn fmt(&mut self, family: &str, ts: &Ts, syntax: u8, via_string: bool, fmt: &str) {
+        let ts = ts.for_syntax(syntax);
+        let x = ts.text(syntax, ts.ns % 1000 == 0);
+        let h = hash_combine(hash_str(&x), hash_str(fmt) ^ via_string as u64);
+        if !self.ctx.mine(h) {
+            return;
+        }
+        if self.ctx.evaluations % 128 == 0 {
+            self.ctx.set_progress(&json!({"check":"C17","kind":"fmt","x":x,"fmt":fmt,"via_string":via_string}).to_string());
+        }
+        let ev = fmt_event(&self.tp, &ts, &x, via_string, fmt);
+        self.ctx.record(h, fmt.contains('%'));
+        self.ctx.count(&format!("family:{family}"));
+        self.ctx.count(&format!("fmt-outcome:{}", ev["res"]["k"].as_str().unwrap_or("?")));
+        self.ctx.count(if via_string { "fmt-via:string" } else { "fmt-via:value" });
+        if ev["res"]["k"] == "panic" {
+            self.ctx.set_insert("panic_sites", hash_str(ev["res"]["site"].as_str().unwrap_or("")));
+        }
+        self.ctx.event(&ev);
+        self.ctx.sample(|| ev.clone());
+    }
+    fn rt(&mut self, ts: &Ts, syntax: u8, trim: bool) {
+        let ts = ts.for_syntax(syntax);
+        let x = ts.text(syntax, trim);
+        let h = hash_combine(hash_str(&x), 0x7274);
+        if !self.ctx.mine(h) {
+            return;
+        }
+        let ev = rt_event(&ts, &x, SYNTAX_NAMES[syntax as usize]);
+        self.ctx.record(h, true);
+        self.ctx.count("family:round-trip");
+        self.ctx.count(&format!("round-trip-syntax:{}", SYNTAX_NAMES[syntax as usize]));
+        self.ctx.event(&ev);
+        self.ctx.sample(|| ev.clone());
+    }
+    fn cmp(&mut self, a: &Ts, b: &Ts) {
+        let (xa, xb) = (a.text(0, true), b.text(0, false));
+        for via_template in [false, true] {
+            let h = hash_combine(hash_combine(hash_str(&xa), hash_str(&xb)), 0x636d + via_template as u64);
+            if !self.ctx.mine(h) {
+                continue;
+            }
+            let ev = cmp_event(&self.tp, &xa, &xb, via_template);
+            self.ctx.record(h, a.off != b.off);
+            self.ctx.count("family:compare");
+            self.ctx.count(if via_template { "compare-via:template" } else { "compare-via:Value" });
+            self.ctx.event(&ev);
+            self.ctx.sample(|| ev.clone());
+        }
+    }
+}
+
+/// deterministic (seed-independent) choice of the fields an enumeration does not sweep
+fn fill(y: i64, mo: i64, d: i64, h: i64, variant: u64, offs: &[i64]) -> Ts {
+    let k = hash_combine((y * 10000 + mo * 100 + d) as u64, (h as u64) << 8 | variant);
+    let pick = |salt: u64, n: u64| (hash_combine(k, salt) % n) as i64;
+    Ts {
+        y,
+        mo,
+        d,
+        h,
+        mi: [0, 59, 5, 30][pick(1, 4) as usize],
+        s: [0, 59, 7, 30][pick(2, 4) as usize],
+        ns: NANOS[pick(3, NANOS.len() as u64) as usize],
+        off: offs[pick(4, offs.len() as u64) as usize],
+    }
+}
+
+pub fn run(ctx: &mut Ctx) {
+    ctx.start_watchdog(120);
+    let quick = ctx.quick();
+    let rng = ctx.rng("c17-random");
+    let offs = offsets();
+    let mut r = Run { ctx, tp: Tpls::new() };
+
+    // W1: every boundary day x every hour, all plain directives in one format
+    let variants: u64 = if quick { 1 } else { 3 };
+    for &y in &years() {
+        for (mo, d) in edge_days(y) {
+            for h in 0..24 {
+                for v in 0..variants {
+                    let ts = fill(y, mo, d, h, v, &offs);
+                    r.fmt("plain-sweep", &ts, 0, false, PLAIN);
+                    if (h + v as i64) % 6 == 0 {
+                        let syntax = ((y + d + h) % 6) as u8;
+                        r.fmt("plain-sweep-string", &ts, syntax, true, PLAIN);
+                    }
+                }
+            }
+        }
+    }
+
+    // W2: offsets x sub-second values on instants next to the range ends and the epoch
+    let bases = [
+        (1, 1, 1, 0, 0, 0),
+        (1, 1, 1, 13, 30, 15),
+        (1, 12, 31, 23, 59, 59),
+        (1969, 12, 31, 23, 59, 59),
+        (1970, 1, 1, 0, 0, 0),
+        (2000, 2, 29, 12, 0, 0),
+        (2024, 12, 30, 0, 0, 1),
+        (2038, 1, 19, 3, 14, 7),
+        (9999, 1, 1, 0, 0, 0),
+        (9999, 12, 31, 23, 59, 59),
+    ];
+    for &(y, mo, d, h, mi, s) in &bases {
+        for &off in &offs {
+            for &ns in &NANOS[..10] {
+                let ts = Ts { y, mo, d, h, mi, s, ns, off };
+                r.fmt("offset-x-subsecond", &ts, 0, false, SUBSEC);
+            }
+        }
+    }
+
+    // a small set of varied timestamps for the format matrices
+    let small = small_set(if quick { 12 } else { 250 }, &offs);
+
+    // W3: every directive x flag x width
+    for dch in DIRECTIVES.chars() {
+        for fl in FLAGS {
+            for w in WIDTHS {
+                for colon in ["", ":", "::"] {
+                    if !colon.is_empty() && dch != 'z' {
+                        continue;
+                    }
+                    let f = format!("%{fl}{w}{colon}{dch}");
+                    for ts in &small {
+                        r.fmt("directive-x-flag-x-width", ts, 0, false, &f);
+                    }
+                }
+            }
+        }
+    }
+
+    // W4: flag combinations, E/O, unknown directives (ASCII and not), malformed formats
+    for f in SPECIAL_FORMATS {
+        for (i, ts) in small.iter().take(if quick { 12 } else { 60 }).enumerate() {
+            r.fmt("special-formats", ts, 0, i % 3 == 1, f);
+        }
+    }
+    for c in (0x20u8..0x7f).map(|b| b as char) {
+        // every printable ASCII character in directive position
+        for ts in small.iter().take(3) {
+            r.fmt("ascii-directive-sweep", ts, 0, false, &format!("[%{c}]"));
+            r.fmt("ascii-directive-sweep", ts, 0, false, &format!("[%-7{c}]"));
+        }
+    }
+
+    // W5: random concatenations on random timestamps
+    let n = if quick { 20_000u64 } else { 1_200_000 };
+    for i in 0..n {
+        let mut g = rng.fork(i);
+        let ts = random_ts(&mut g, &offs);
+        let f = random_format(&mut g);
+        let via_string = g.chance(1, 5);
+        let syntax = if via_string && g.chance(1, 2) { g.below(7) as u8 } else { 0 };
+        r.fmt("random-concatenation", &ts, syntax, via_string, &f);
+    }
+
+    // W6: print / parse round trips over every accepted syntax
+    let hours: Vec<i64> = if quick { vec![0, 23] } else { (0..24).collect() };
+    for &y in &years() {
+        for (mo, d) in edge_days(y) {
+            for &h in &hours {
+                let ts = fill(y, mo, d, h, 7, &offs);
+                if quick {
+                    r.rt(&ts, 0, h == 0);
+                    r.rt(&ts, (1 + (y + d + h) % 6) as u8, false);
+                } else {
+                    for syntax in 0..7u8 {
+                        r.rt(&ts, syntax, h % 2 == 0);
+                    }
+                }
+            }
+        }
+    }
+    for &(y, mo, d, h, mi, s) in &bases {
+        for &off in &offs {
+            for &ns in &NANOS[..10] {
+                r.rt(&Ts { y, mo, d, h, mi, s, ns, off }, 0, ns % 2 == 0);
+            }
+        }
+    }
+
+    // W7: the same or neighbouring instants written in different offsets
+    let cmp_offs: Vec<i64> = if quick {
+        vec![-12 * 3600, -(9 * 3600 + 1800), 0, 3600, 5 * 3600 + 2700, 14 * 3600]
+    } else {
+        vec![-12 * 3600, -(9 * 3600 + 1800), -5 * 3600, -3600, -1800, 0, 3600, 2 * 3600, 5 * 3600 + 2700, 9 * 3600, 12 * 3600 + 2700, 14 * 3600]
+    };
+    let cmp_bases: Vec<Ts> = small_set(if quick { 8 } else { 40 }, &[0]);
+    for base in &cmp_bases {
+        for &oa in &cmp_offs {
+            let Some(a) = base.shifted(0, oa) else { continue };
+            for &ob in &cmp_offs {
+                let diff = (oa - ob) * 1_000_000_000;
+                for delta in [0, 1, -1, 1_000_000_000, -1_000_000_000, 3_600_000_000_000, -3_600_000_000_000, diff, -diff, diff + 1, diff - 1] {
+                    if let Some(b) = a.shifted(delta, ob) {
+                        r.cmp(&a, &b);
+                    }
+                }
+            }
+        }
+    }
+}
+
+/// varied timestamps: single- and double-digit fields, range ends, pre-epoch, leading-zero fractions
+fn small_set(n: usize, offs: &[i64]) -> Vec<Ts> {
+    let fixed = [
+        (2022, 1, 3, 7, 5, 9, 5_000_000),
+        (1, 1, 1, 0, 0, 0, 0),
+        (9999, 12, 31, 23, 59, 59, 999_999_999),
+        (1969, 12, 31, 23, 59, 59, 1),
+        (2024, 2, 29, 12, 0, 0, 1_000),
+        (2021, 1, 3, 13, 30, 0, 5_006_007),
+        (2020, 12, 31, 0, 0, 1, 100_000_000),
+        (1000, 6, 5, 1, 2, 3, 10),
+        (2007, 11, 19, 8, 37, 48, 0),
+        (2026, 1, 1, 11, 59, 59, 123_456_789),
+        (1999, 12, 27, 12, 0, 0, 50_000),
+        (2038, 1, 19, 3, 14, 7, 0),
+    ];
+    let mut v = Vec::new();
+    let mut g = Rng::new(0xC17);
+    for i in 0..n {
+        if i < fixed.len() {
+            let (y, mo, d, h, mi, s, ns) = fixed[i];
+            let off = offs[(i * 7) % offs.len()];
+            v.push(Ts { y, mo, d, h, mi, s, ns, off });
+        } else {
+            v.push(random_ts(&mut g, offs));
+        }
+    }
+    v
+}
+
+fn random_ts(g: &mut Rng, offs: &[i64]) -> Ts {
+    let y = match g.below(6) {
+        0 => *g.pick(&YEARS_EXTRA),
+        1 => g.range(1, 9999),
+        2 => g.range(1900, 1970),
+        _ => g.range(1970, 2040),
+    };
+    let (mo, d) = if g.chance(1, 3) {
+        *g.pick(&edge_days(y))
+    } else {
+        let mo = g.range(1, 12);
+        (mo, g.range(1, days_in_month(y, mo)))
+    };
+    let ns = match g.below(4) {
+        0 => 0,
+        1 => *g.pick(&NANOS),
+        2 => g.range(0, 999_999_999) / *g.pick(&[1, 1000, 1_000_000, 100_000_000]),
+        _ => g.range(0, 999_999_999),
+    };
+    Ts { y, mo, d, h: g.range(0, 23), mi: g.range(0, 59), s: g.range(0, 59), ns, off: *g.pick(offs) }
+}
+
+const NUMERIC: &str = "YCymdejHkIlMSuwGgVUWs";
+const ALPHA: &str = "BbhAaPp";
+const COMPOSITE: &str = "cDFvxXrRT";
+const UNKNOWN: [&str; 16] = ["f", "i", "J", "K", "o", "q", "Q", "!", ".", "é", "€", "😀", "日", "ß", "@", "/"];
+const LITERALS: [&str; 20] = [" ", "-", ":", "/", ", ", "T", "Z", "at ", "é", "日本", "😀", "0", "12", "a", "W", ".", "|", "[", "]", "day "];
+
+fn random_format(g: &mut Rng) -> String {
+    let mut f = String::new();
+    let nseg = 1 + g.below(8);
+    for _ in 0..nseg {
+        match g.below(100) {
+            0..=24 => {
+                // numeric directive, flags and widths of the exactly specified sub-domain
+                f.push('%');
+                f.push_str(*g.pick(&["", "", "", "-", "_", "0", "-_", "_0", "0_"]));
+                if g.chance(1, 3) {
+                    f.push_str(&g.range(1, 12).to_string());
+                }
+                f.push(*g.pick(&NUMERIC.chars().collect::<Vec<_>>()));
+            }
+            25..=36 => {
+                f.push('%');
+                f.push_str(*g.pick(&["", "", "", "^", "#", "-", "_", "^#", "#^"]));
+                if g.chance(1, 3) {
+                    f.push_str(&g.range(1, 12).to_string());
+                }
+                f.push(*g.pick(&ALPHA.chars().collect::<Vec<_>>()));
+            }
+            37..=44 => {
+                f.push('%');
+                if g.chance(1, 4) {
+                    f.push_str(*g.pick(&["-", "_", "0"]));
+                }
+                if g.chance(2, 3) {
+                    f.push_str(&g.range(1, 15).to_string());
+                }
+                f.push(if g.chance(1, 2) { 'L' } else { 'N' });
+            }
+            45..=50 => f.push_str(*g.pick(&["%z", "%:z", "%::z", "%Z"])),
+            51..=56 => {
+                f.push('%');
+                f.push(*g.pick(&COMPOSITE.chars().collect::<Vec<_>>()));
+            }
+            57..=60 => f.push_str(*g.pick(&["%%", "%n", "%t"])),
+            61..=68 => {
+                // anything goes: mostly outside the exactly specified sub-domain
+                f.push('%');
+                for _ in 0..g.below(4) {
+                    f.push(*g.pick(&['-', '_', '0', '^', '#']));
+                }
+                if g.chance(1, 2) {
+                    f.push_str(&g.range(1, 40).to_string());
+                }
+                if g.chance(1, 8) {
+                    f.push(*g.pick(&['E', 'O']));
+                }
+                f.push(*g.pick(&DIRECTIVES.chars().collect::<Vec<_>>()));
+            }
+            69..=76 => {
+                f.push('%');
+                if g.chance(1, 3) {
+                    f.push(*g.pick(&['-', '_', '0', '^', '#']));
+                }
+                if g.chance(1, 3) {
+                    f.push_str(&g.range(1, 20).to_string());
+                }
+                f.push_str(*g.pick(&UNKNOWN));
+            }
+            77..=79 => {
+                f.push('%');
+                f.push(*g.pick(&['E', 'O']));
+                f.push(*g.pick(&"cCxXyYdeHkIlmMSuUVwW".chars().collect::<Vec<_>>()));
+            }
+            _ => f.push_str(*g.pick(&LITERALS)),
+        }
+    }
+    if g.chance(1, 40) {
+        f.push_str(*g.pick(&["%", "%-", "%5", "%E", "%^#", "%012", "%_O"]));
+    }
+    f
+}
+
+/// re-execute one recorded input on the real code and print the fresh event
+pub fn replay(j: &Json) -> bool {
+    let tp = Tpls::new();
+    let kind = j["kind"].as_str().or(j["ev"].as_str()).unwrap_or("fmt");
+    let ev = match kind {
+        "rt" => {
+            let Some(ts) = Ts::from_json(&j["ts"]) else {
+                eprintln!("c17 replay: ts missing");
+                return false;
+            };
+            rt_event(&ts, j["x"].as_str().unwrap_or(""), j["syntax"].as_str().unwrap_or("default"))
+        }
+        "cmp" => cmp_event(&tp, j["a"].as_str().unwrap_or(""), j["b"].as_str().unwrap_or(""), j["via"].as_str() == Some("template")),
+        _ => {
+            let Some(ts) = Ts::from_json(&j["ts"]) else {
+                eprintln!("c17 replay: ts missing");
+                return false;
+            };
+            fmt_event(&tp, &ts, j["x"].as_str().unwrap_or(""), j["via"].as_str() == Some("string"), j["fmt"].as_str().unwrap_or(""))
+        }
+    };
+    println!("{}", serde_json::to_string(&ev).unwrap());
     false
 }
